@@ -4,6 +4,7 @@ highlight_braille_chars (hook) vs the model on seeded strings (Tie/C20Tie.v).
 Library oracle (search + support): for every node id and every cell position of generated expressions, in every
 braille code and highlight style: bounds, ids, only dots 7-8 differ, purity (preferences, navigation position,
 later braille and speech unchanged), Off / unknown id give exactly the unhighlighted braille."""
+import html
 import json
 import os
 import random
@@ -82,7 +83,8 @@ def unhl(s):
 
 def api_oracle(res, rng):
     bodies = list(X.FIXED[:12]) + ["<mrow><mi>x</mi><mo>=</mo><mi>&#x221E;</mi></mrow>", "<mrow><mi>a</mi><mo>&#x2261;</mo><mi>b</mi></mrow>",
-                                   "<mrow><mi>&#x1F600;</mi><mo>+</mo><mi>x</mi><mo>+</mo><mn>12</mn></mrow>"]
+                                   "<mrow><mi>&#x1F600;</mi><mo>+</mo><mi>x</mi><mo>+</mo><mn>12</mn></mrow>",
+                                   "<mrow><mn>2</mn><mi>sin</mi><mo>&#x2061;</mo><mi>x</mi><mo>+</mo><mi>arcsin</mi><mo>&#x2061;</mo><mn>1234</mn><mo>&#x2264;</mo><mtext>if so</mtext></mrow>"]
     bodies += [X.gen(rng, 2) for _ in range(4 if res.tier == "quick" else 40)]
     combos = [(c, s) for c in CODES for s in STYLES]
     if res.tier == "quick":
@@ -101,13 +103,15 @@ def api_oracle(res, rng):
             rs = pout[k].get("res", [])
             k += 1
             if len(rs) == 5 and "ok" in rs[3] and "ok" in rs[4]:
-                info[(b, code)] = (re.findall(r"\bid='([^']*)'", C.norm_ids(rs[3]["ok"])), rs[4]["ok"])
+                canon = C.norm_ids(rs[3]["ok"])
+                info[(b, code)] = (re.findall(r"\bid='([^']*)'", canon), rs[4]["ok"],
+                                   [(i_, html.unescape(t_)) for _, i_, t_ in re.findall(r"<(mi|mn|mo|mtext)\b[^>]*\bid='([^']*)'[^>]*>([^<]*)</", canon)])
     sessions, meta = [], []
     for b in bodies:
         for code, style in combos:
             if (b, code) not in info:
                 continue
-            ids, b0 = info[(b, code)]
+            ids, b0, toks = info[(b, code)]
             n = len(b0)
             ops = [["set_rules_dir", C.RULES], ["set_preference", "BrailleCode", code], ["set_preference", "BrailleNavHighlight", style],
                    ["set_mathml", X.math(b)], ["get_braille", ""], ["get_spoken_text"], ["v_prefs_dump"]]
@@ -129,14 +133,22 @@ def api_oracle(res, rng):
                 ops.append(["get_navigation_node_from_braille_position", p])
                 plan.append(("route", p))
             ops += [["v_prefs_dump"], ["get_navigation_mathml_id"], ["get_braille", ""], ["get_spoken_text"]]
+            # the braille position of EVERY position navigation can be at: each token at each character offset inside
+            # its text (set_navigation_node moves the position, so this sweep comes after the purity comparison)
+            sweep = []
+            cand = [(i_, t_) for i_, t_ in toks if len(t_) > 1] + [(i_, t_) for i_, t_ in toks if len(t_) == 1][:2]
+            for i_, t_ in (cand if res.tier == "thorough" else cand[:5]):
+                for k_ in sorted({0, 1, len(t_) // 2, len(t_) - 1} & set(range(len(t_)))):
+                    ops += [["v_set_navigation_node_norm", i_, k_], ["get_braille_position"], ["get_braille", ""]]
+                    sweep.append((i_, t_, k_))
             sessions.append({"id": len(sessions), "ops": ops})
-            meta.append((b, code, style, ids, plan))
+            meta.append((b, code, style, ids, plan, sweep))
     out = C.run_harness(sessions)
     nv = 0
-    for (b, code, style, ids, plan), r in zip(meta, out):
+    for (b, code, style, ids, plan, sweep), r in zip(meta, out):
         rs = r.get("res", [])
         rep = {"kind": "api", "mathml": X.math(b), "code": code, "style": style}
-        if len(rs) != 7 + len(plan) + 4:
+        if len(rs) != 7 + len(plan) + 4 + 3 * len(sweep):
             res.violation("session crashes (braille %s, highlight %s)" % (code, style), dict(rep, results=r))
             nv += 1
             continue
@@ -203,8 +215,29 @@ def api_oracle(res, rng):
             res.violation("braille queries moved the navigation position %r -> %r" % (navid_before, tail[1]), rep)
             nv += 1
         if tail[2].get("ok") != b0 or tail[3] != sp0:
-            res.violation("braille/speech output changed after highlight / position / routing queries", dict(rep, before=[b0, sp0], after=tail[2:]))
+            res.violation("braille/speech output changed after highlight / position / routing queries", dict(rep, before=[b0, sp0], after=tail[2:4]))
             nv += 1
+        for j_, (i_, t_, k_) in enumerate(sweep):
+            sn, ps, br = tail[4 + 3 * j_:7 + 3 * j_]
+            res.add_case((code, style, "pos-at", b, i_, k_), nontrivial=(k_ > 0))
+            srep = dict(rep, op=["set_navigation_node", i_, k_], token=t_, observed=[sn, ps])
+            if "panic" in sn or "panic" in ps or "panic" in br:
+                res.violation("set_navigation_node(%s, %d) / get_braille_position panics" % (i_, k_), srep)
+                nv += 1
+            elif "ok" not in sn:
+                res.violation("set_navigation_node(%s, %d) fails for a token of the expression and an offset inside its text %r: %r" % (i_, k_, t_, sn), srep)
+                nv += 1
+            elif "ok" not in ps:
+                res.violation("get_braille_position fails at token %s offset %d: %r" % (i_, k_, ps), srep)
+                nv += 1
+            else:
+                s_, e_ = ps["ok"]
+                ln = len(br.get("ok") or "")
+                if not (0 <= s_ <= e_ <= ln):
+                    res.violation("get_braille_position at token %r offset %d is (%d, %d): not start <= end <= length %d" % (t_, k_, s_, e_, ln), dict(srep, braille=br.get("ok")))
+                    nv += 1
+            if nv >= 6:
+                return nv
         if nv >= 6:
             return nv
     return nv
@@ -256,6 +289,14 @@ def replay(path):
             ops.append(["v_get_braille_norm", op[1]])
         elif op and op[0] == "route":
             ops.append(["get_navigation_node_from_braille_position", op[1]])
+        elif op and op[0] == "set_navigation_node":
+            ops += [["v_set_navigation_node_norm", op[1], op[2]], ["get_braille_position"], ["get_braille", ""]]
+            r = C.one_session(ops)["res"]
+            print(C.norm_ids(json.dumps(r[3:], ensure_ascii=False)))
+            if any("panic" in x for x in r) or "ok" not in r[-2]:
+                return 1
+            s_, e_ = r[-2]["ok"]
+            return 0 if 0 <= s_ <= e_ <= len(r[-1].get("ok") or "") else 1
         ops += [["get_braille_position"], ["get_preference", "BrailleNavHighlight"]]
         r = C.one_session(ops)["res"]
         print(C.norm_ids(json.dumps(r[3:], ensure_ascii=False)))
